@@ -158,6 +158,18 @@ def plan_mp(tier, seed, props):
             dict(family="mergedeep", opts=NONE, frac=0.6 if q else 1.0, void=False, nf=False)]
 
 
+def plan_cr(tier, seed, props):
+    return []
+
+
+def plan_api(tier, seed, props):
+    q = tier == "quick"
+    n = 3 if q else 10
+    return [item("nestarr_2", NONE, max=n * 2), item("scalarr_4_3", NONE, max=n), item("obj_2", MERGE, max=n * 2), item("deepobj", MERGE, max=n),
+            item("obj_2", NONE, max=n), item("scalarr_4_3", SET, max=n), item("nestarr_2", MSET, max=n), item("keyed_2", KEYS, max=n),
+            item("obj_2", SETMERGE, max=n), item("deep", NONE, max=n), item("mergedeep", MERGE, max=n)]
+
+
 def followup_vary(sc, jdv, st, tr, tag, seed):
     """pass 2 of C10: TLC applies the variation operators to the real patches of pass 1"""
     out = sc.sub("vary-" + tag)
@@ -189,12 +201,23 @@ CHECKS = {
                 rule="session = one null-free (a,b), a != b, under MERGE / SET+MERGE / MULTISET+MERGE: RenderMerge text evaluated by the RFC 7386 function"),
     "C12": dict(stages=[Stage("mp", "TraceMerge", plan_mp)], design=["MCMerge"],
                 rule="session = one merge patch document read by ReadMergeString and applied to every target of the family"),
+    "C13": dict(stages=[Stage("cr", "TraceCrash", plan_cr, extra={"tier": "TIER"}),
+                        Stage("proc", "TraceCli", lambda t, s, p: [], bins=True, extra={"frac": "FRAC"})], design=["MCText"],
+                rule="session = one input: a line sequence over 46 line kinds (all of length <= 2, sampled/all of length 3, seeded longer ones), "
+                     "a structurally valid hunk with arbitrary path built from fields and through text, an op sequence, or a seeded byte "
+                     "mutation of a valid text; every accepted diff is applied to documents of every kind"),
+    "C15": dict(stages=[Stage("api", "TraceApi", plan_api, extra={"histories": "HIST"})], design=["MCApi"],
+                rule="session = one history of read-only calls (every sequence over 10 calls up to the tier's length, from Api.tla) on shared "
+                     "live values of one seed (a, b, options), repeated in-process and compared with a reference process; non-trivial = history length >= 2"),
+    "C14": dict(stages=[Stage("proc", "TraceCli", lambda t, s, p: [], bins=True, extra={"frac": "FRAC"})], design=["MCCli"],
+                rule="session = one invocation of the matrix of Cli.tla (binary x reading flags x format x yaml x color x -o x input pair, "
+                     "error and translation invocations), its stdin twin and the follow-up jd -p run on its output"),
     "C03": dict(stages=[Stage("pt", "TraceDP", plan_pt)], design=["MCPatch"],
                 rule="session = one list-mode diff with its sub-sequences applied to a, b and perturbed targets; "
                      "non-trivial = at least one target rejected and one accepted"),
     "C04": dict(stages=[Stage("eq", "TraceEq", plan_eq)], design=["MCEq"],
                 rule="session = one (a, b, options) triple: Equals(a,b), Equals(b,a), Equals(a,a) against the canonical-form oracle"),
-    "C05": dict(stages=[Stage("dp", "TraceDP", plan_dp)], design=["MCPatch"], rule="session = (a,b,options): len(Diff)=0 iff Equals"),
+    "C05": dict(stages=[Stage("dp", "TraceDP", plan_dp), Stage("proc", "TraceCli", lambda t, s, p: [], bins=True, extra={"frac": "FRAC"})], design=["MCPatch"], rule="session = (a,b,options): len(Diff)=0 iff Equals"),
     "C06": dict(stages=[Stage("dp", "TraceDP", plan_dp)], design=["MCPatch"], rule="session = list-mode (a,b): hunks vs independent LCS"),
     "C07": dict(stages=[Stage("dp", "TraceDP", plan_dp)], design=["MCPatch"], rule="session = (a,b,options): per-hunk and leave-one-out"),
     "C08": dict(stages=[Stage("pt", "TraceDP", plan_pt)], design=["MCPatch"], rule="session = set/multiset/setkeys diff on permuted and perturbed targets"),
@@ -247,6 +270,9 @@ def classify(prop, fails, known):
 def run_check(prop, tier, seed, keep=False):
     t0 = time.time()
     cfg = CHECKS[prop]
+    import glob
+    for f in glob.glob(os.path.join(L.REPLAYS, prop + "-*.json")):
+        os.remove(f)
     L.ensure_universe()
     sc = L.Scratch(keep)
     try:
@@ -264,7 +290,9 @@ def run_check(prop, tier, seed, keep=False):
                 bins = L.build_binaries(sc)
             props_judged = st.props or [prop]
             plan = dict(driver=st.driver, seed=seed, table=table_path(st.table), yaml_every=st.yaml_every,
-                        items=st.planfn(tier, seed, props_judged), bins=bins or {}, extra=st.extra)
+                        items=st.planfn(tier, seed, props_judged), bins=bins or {},
+                        extra={k: (tier if v == "TIER" else (0.12 if tier == "quick" else 1.0) if v == "FRAC" else ("histories_2" if tier == "quick" else "histories_3") if v == "HIST" else v)
+                               for k, v in st.extra.items()})
             work.append((plan, st.module, "%s-%d" % (st.driver, i), st, props_judged))
         while work:
             plan, module, tag, st, props_judged = work.pop(0)
